@@ -295,6 +295,7 @@ GRAPHS = [
     (["sysenv", "use"], [("sysenv", "use", ""), ("use", "sysenv", "t"), ("use", "sysenv", "")], []),       # flows without any dimension
     (["use", "sysenv", "waste"], [("sysenv", "use", "ta"), ("use", "waste", "ta")], [("waste", "ta")]),      # hand-built: the system environment is not listed first
     (["sysenv", "use"], [("sysenv", "use", "ta"), ("use", "sysenv", "ta")], [("sysenv", "t"), ("use", "ta")]),      # a stock kept by the system environment (id 0)
+    (["sysenv", "use", "waste"], [("sysenv", "use", "ta"), ("use", "waste", "ta")], [("use", "ta"), ("use", "t"), ("waste", "ta")]),      # two stocks at one process
 ]
 
 
